@@ -648,13 +648,14 @@ fn ppc_word(rng: &mut Rng) -> u32 {
         9 => d(36),
         10 => d(37),
         11 => 47 << 26 | (24 + rng.below(8) as u32) << 21 | ra << 16 | imm, // stmw
-        12 => 21 << 26 | rt << 21 | ra << 16 | (rng.u32() & 0xfffe) | (rng.below(2) as u32 & 0), // rlwinm (Rc=0)
+        12 => 21 << 26 | rt << 21 | ra << 16 | (rng.u32() & 0xfffe) | rng.below(2) as u32, // rlwinm[.]
         13 => 24 << 26, // nop
-        14 => x(266, 0),
-        15 => x(40, 0),
-        16 => 31 << 26 | rt << 21 | ra << 16 | 202 << 1, // addze
-        17 => 31 << 26 | rt << 21 | ra << 16 | rt << 11 | 444 << 1, // mr ra, rt
-        18 => 31 << 26 | rt << 21 | ra << 16 | (rng.below(32) as u32) << 11 | 824 << 1, // srawi
+        // XO/X-form arithmetic, plain and record (Rc = 1) forms alike
+        14 => x(266, rng.below(2) as u32),
+        15 => x(40, rng.below(2) as u32),
+        16 => 31 << 26 | rt << 21 | ra << 16 | 202 << 1 | rng.below(2) as u32, // addze[.]
+        17 => 31 << 26 | rt << 21 | ra << 16 | rt << 11 | 444 << 1 | rng.below(2) as u32, // mr[.] ra, rt
+        18 => 31 << 26 | rt << 21 | ra << 16 | (rng.below(32) as u32) << 11 | 824 << 1 | rng.below(2) as u32, // srawi[.]
         19 => 31 << 26 | rt << 21 | (*rng.pick(&[0x100u32, 0x120])) << 11 | (*rng.pick(&[339u32, 467])) << 1, // mflr/mtlr/mfctr/mtctr  (spr field is split: LR=8 -> 0x100, CTR=9 -> 0x120)
         20 => 18 << 26 | (rng.u32() & 0x03ff_fffc) | rng.below(2) as u32, // b / bl
         21 => 16 << 26 | (rng.below(32) as u32) << 21 | (rng.below(32) as u32) << 16 | (rng.u32() & 0xfffc) | rng.below(2) as u32, // bc / bcl
